@@ -20,8 +20,10 @@ import (
 )
 
 const (
-	tA    = 1
-	tAAAA = 28
+	tA     = 1
+	tAAAA  = 28
+	tSVCB  = 64
+	tHTTPS = 65
 )
 
 func q(name string, qtype uint16, id uint16) control.C09Query {
@@ -37,7 +39,7 @@ func main() {
 		fmt.Fprintln(os.Stderr, "C09: prepare:", err)
 		os.Exit(2)
 	}
-	// Whole scenarios are distributed over the worker processes (12 quick / 16 thorough scenarios on 16 workers:
+	// Whole scenarios are distributed over the worker processes (13 quick / 16 thorough scenarios on 16 workers:
 	// one start-up per worker, no redundant shallow executions — the machine is shared). Every scenario deepens
 	// its bounds cheapest first until its list is done or the common deadline is reached (exhaustive:false).
 	thorough, worker := false, false
@@ -80,8 +82,14 @@ func main() {
 	// different names under one transaction ID
 	add(&control.C09Params{Name: "L1/diff-names-same-id", Layer: 1, Clients: C(cl(q(a, tA, 0x3003)), cl(q(b, tA, 0x3003)))},
 		[]B{{0, 0}, {1, 0}, {0, 1}, {2, 0}}, []B{{0, 0}, {1, 0}, {0, 1}, {2, 0}, {1, 1}, {0, 2}, {2, 1}})
-	// one name, two types, one ID: the type is part of every key
-	add(&control.C09Params{Name: "L1/name-vs-type", Layer: 1, Clients: C(cl(q(a, tA, 0x3003)), cl(q(a, tAAAA, 0x3003)))},
+	// one name, two types, one ID: the type is part of every key (quick tier; the thorough tier runs the SVCB/HTTPS pair)
+	if !thorough {
+		add(&control.C09Params{Name: "L1/name-vs-type", Layer: 1, Clients: C(cl(q(a, tA, 0x3003)), cl(q(a, tAAAA, 0x3003)))},
+			[]B{{0, 0}, {1, 0}, {0, 1}, {2, 0}}, []B{{0, 0}, {1, 0}, {0, 1}, {2, 0}})
+	}
+	// one name asked as SVCB (64) and HTTPS (65): concurrently (client 0's first question against client 1) and
+	// sequentially inside the TTL (client 0's second question)
+	add(&control.C09Params{Name: "L1/svcb-vs-https", Layer: 1, Clients: C(cl(q(a, tSVCB, 0x6464), q(a, tHTTPS, 0x6565)), cl(q(a, tHTTPS, 0x6464)))},
 		[]B{{0, 0}, {1, 0}, {0, 1}, {2, 0}}, []B{{0, 0}, {1, 0}, {0, 1}, {2, 0}, {1, 1}, {0, 2}, {2, 1}})
 	// two queries per client, crossing: cache hits and coalescing mixed
 	add(&control.C09Params{Name: "L1/two-queries", Layer: 1, Clients: C(cl(q(a, tA, 0x0101), q(b, tA, 0x0102)), cl(q(b, tA, 0x0201), q(a, tA, 0x0202)))},
